@@ -253,6 +253,50 @@ def violates_vs(rng):
     return None
 
 
+def violates_direct_table(rng):
+    """tables built directly (not through the CSV reader) in which ANY column may lack ANY key: the two table queries must
+    agree with each other and with the definition - a value is allowed for a key iff some column that admits all the
+    given values (a column without a key admits nothing for it) admits that value too"""
+    from vc2_conformance.constraint_table import allowed_values_for, is_allowed_combination, ValueSet, AnyValue
+
+    ncols = rng.randrange(1, 5)
+    keys = rng.sample(KEYS, rng.randrange(2, 5))
+    cols, refs = [], []
+    for _ in range(ncols):
+        col, ref = {}, {}
+        for k in keys:
+            c = rng.random()
+            if c < 0.3:
+                continue                      # the column does not mention the key
+            if c < 0.4:
+                col[k], ref[k] = AnyValue(), None
+            else:
+                vals = set(rng.randrange(0, 6) for _ in range(rng.randrange(0, 4)))
+                col[k], ref[k] = ValueSet(*vals), vals
+        if not col:
+            # (a column that mentions no key at all is the documented 'catch all' rule, on which the two queries differ by
+            #  design: excluded, as in the theorems' hypothesis)
+            k = rng.choice(keys)
+            col[k], ref[k] = ValueSet(1), {1}
+        cols.append(col)
+        refs.append(ref)
+    given = dict((k, rng.randrange(0, 6)) for k in rng.sample(keys, rng.randrange(0, len(keys))))
+    key = rng.choice([k for k in keys if k not in given] or keys)
+    given.pop(key, None)
+
+    def admits(ref, k, v):
+        return k in ref and (ref[k] is None or v in ref[k])
+    av = allowed_values_for(cols, key, given)
+    for v in range(-1, 8):
+        want = any(all(admits(ref, k, x) for k, x in given.items()) and admits(ref, key, v) for ref in refs)
+        got_av = v in av
+        got_comb = is_allowed_combination(cols, dict(given, **{key: v}))
+        if got_av != want or got_comb != want:
+            return {"columns": [dict((k, ("any" if r is None else sorted(r))) for k, r in ref.items()) for ref in refs], "given": given, "key": key, "v": v,
+                    "why": "value %d for %s: allowed_values_for says %s, is_allowed_combination says %s, the table says %s" % (v, key, got_av, got_comb, want)}
+    return None
+
+
 def violates_table(rng):
     from vc2_conformance.constraint_table import allowed_values_for, is_allowed_combination
 
@@ -343,6 +387,10 @@ class Prop(object):
             r = violates_table(rng)
             if r:
                 return dict(r, kind="table")
+        for _ in range(ctx.n(4000, 30000)):
+            r = violates_direct_table(rng)
+            if r:
+                return dict(r, kind="direct-table")
         return None
 
     def replay(self, ctx, path):
